@@ -421,6 +421,35 @@ def leaf_variants(v, path=None, ctx=None):
                 yield ("c", comp, nv), info
 
 
+def leaf_valid_variants(v):
+    """Yield value' with exactly one simple-typed leaf of v replaced by another VALID value of its type — every value the facets
+    allow, the empty string and values with blanks included (the ordinary sampler keeps to plain text)."""
+    from .gen import flat_members
+    if v[0] == "s":
+        for lex in sample.simple_valid_values(v[1]):
+            lex = lex if isinstance(lex, str) else lex[1]
+            if lex != v[2]:
+                yield ("s", v[1], lex)
+        return
+    if v[0] != "c":
+        return
+    _, comp, vals = v
+    for i, (m, x) in enumerate(zip(flat_members(comp), vals)):
+        if isinstance(x, list):
+            for j, it in enumerate(x):
+                for it2 in leaf_valid_variants(it):
+                    nx = list(x)
+                    nx[j] = it2
+                    nv = list(vals)
+                    nv[i] = nx
+                    yield ("c", comp, nv)
+        elif x is not None:
+            for it2 in leaf_valid_variants(x):
+                nv = list(vals)
+                nv[i] = it2
+                yield ("c", comp, nv)
+
+
 def stage_restr(p):
     """C07: check_restrictions(None) on request envelopes with exactly one violating value per reachable position, and the
     client call for each of them against the listener (no connection may be accepted)."""
@@ -453,12 +482,23 @@ def stage_restr(p):
             for mode in ("full", "lo", "hi", "many"):
                 variants.append((f"valid-{mode}", [ev.value(e, mode) for _, e in els], None))
             base = variants[0][1]
+            n_valid = 0
+            for k, (role, e) in enumerate(els):
+                for nv in leaf_valid_variants(base[k]):
+                    vals = list(base)
+                    vals[k] = nv
+                    variants.append((f"valid-other-value-{n_valid}", vals, None))
+                    n_valid += 1
+                    if n_valid >= 10:
+                        break
+                if n_valid >= 10:
+                    break
             for k, (role, e) in enumerate(els):
                 for nv, info in leaf_variants(base[k], None, {"depth": 0, "optional": False, "repeated": False, "position": "element"}):
                     vals = list(base)
                     vals[k] = nv
                     variants.append((f"viol{len(variants)}", vals, dict(info, part=role)))
-                    if len(variants) >= 44:
+                    if len(variants) >= 54:
                         break
             lits = []
             for label, vals, info in variants:
